@@ -87,6 +87,17 @@ impl PeersStore {
     }
 }
 
+#[cfg(mainline_verif)]
+impl PeersStore {
+    /// Verification hook: contents, most recently used first.
+    pub fn verif_dump(&self) -> Vec<(Id, Vec<(Id, SocketAddrV4)>)> {
+        self.info_hashes
+            .iter()
+            .map(|(k, v)| (*k, v.iter().map(|(a, b)| (*a, *b)).collect()))
+            .collect()
+    }
+}
+
 #[cfg(test)]
 mod test {
     use super::*;
